@@ -14,10 +14,10 @@ def cases_for(ctx):
     n_chars = 3 if quick else 4
     chars = list(all_strings(ALPHA28, n_chars))
     if quick:
-        # length 3 is sampled 1 in 2 per entry (offset by entry so that the union covers all of it)
+        # length 3 is sampled 1 in 3 per entry (offset by entry so that the union covers all of it)
         for k, e in enumerate(ENTRIES):
             for j, s in enumerate(chars):
-                if len(s) < 3 or (j + k) % 2 == 0:
+                if len(s) < 3 or (j + k) % 3 == 0:
                     tuples.append((e, None, 500, s))
     else:
         tuples += [(e, None, 500, s) for e in ENTRIES for s in chars]
@@ -93,7 +93,7 @@ def run(ctx):
         ctx.sample({"case": describe(c), "impl": i, "model": m})
     struct_report(ctx, impl, model, cases)
     ctx.cov["rule"] = (
-        "c01_parse: (i) every string of length <= 2 and (quick: half of, thorough: all of) length 3..4 over the "
+        "c01_parse: (i) every string of length <= 2 and (quick: a third of, per entry, offset so that the union is complete; thorough: all of) length 3..4 over the "
         "28-symbol lexer alphabet, three entries; (i') token sequences over 28 token symbols to length 3 (quick: "
         "a third of length 3) / 4; (ii) fixed documents covering every definition kind, generated documents, their "
         "token-level mutations (delete/duplicate/swap/replace/truncate at every position), the 107 files of "
